@@ -26,7 +26,8 @@ func VerifRoot() string {
 
 func StartModel() (*Model, error) {
 	bin := filepath.Join(VerifRoot(), "coq", "extract", "modelrun")
-	cmd := exec.Command(bin)
+	// deep (non tail-recursive) list functions of the extracted code need a large stack on 256 KB values
+	cmd := exec.Command("/bin/sh", "-c", "ulimit -s unlimited 2>/dev/null || ulimit -s 1000000 2>/dev/null; exec "+bin)
 	in, err := cmd.StdinPipe()
 	if err != nil {
 		return nil, err
